@@ -494,6 +494,9 @@ funcload(struct func *f, struct type *t, struct lvalue lval)
 	struct qbetype qt;
 
 	switch (t->kind) {
+	case TYPEVOID:
+		/* `*p` with a pointer to void designates nothing to load */
+		return NULL;
 	case TYPESTRUCT:
 	case TYPEUNION:
 	case TYPEARRAY:
